@@ -121,7 +121,7 @@ class Impl:
 
             self.ncall = getattr(self, "ncall", 0) + 1
             # the batch in one of several in-memory representations of the same values
-            batch = represent(np.array(mats), ("c", "fortran", "strided", "readonly")[self.ncall % 4]) if self.mutant is None else np.array(mats)
+            batch = represent(np.array(mats), ("c", "fortran", "strided", "readonly", "buffer", "buffer")[self.ncall % 6]) if self.mutant is None else np.array(mats)
             out = self.fn(batch)
             res = [{k: np.array(out[k][i], dtype=float) for k in KEYS} for i in range(len(mats))]
             if self.mutant is None and len(mats) > 1:
